@@ -1448,8 +1448,12 @@ DOMNode* DOMDocumentImpl::renameNode(DOMNode* n, const XMLCh* namespaceURI, cons
 
     switch (n->getNodeType()) {
         case ELEMENT_NODE:
+            if (!name || !isXMLName(name))
+                throw DOMException(DOMException::INVALID_CHARACTER_ERR, 0, getMemoryManager());
             return ((DOMElementImpl*)n)->rename(namespaceURI, name);
         case ATTRIBUTE_NODE:
+            if (!name || !isXMLName(name))
+                throw DOMException(DOMException::INVALID_CHARACTER_ERR, 0, getMemoryManager());
             return ((DOMAttrImpl*)n)->rename(namespaceURI, name);
         default:
             break;
